@@ -453,6 +453,11 @@ func init() {
 			cfg.PSilence = 0
 			cfg.PPartition = 0
 			cfg.PCrash = 0
+			if r.Bool(0.4) {
+				// persistent victims that are restarted after the hostile inputs
+				mixStores(cfg, r, 0.6)
+				cfg.PCrash = 0.02
+			}
 			cfg.FairSuffix = true
 			if r.Bool(0.3) {
 				cfg.PJoin = 0.01
@@ -468,9 +473,12 @@ func init() {
 		},
 		run: func(c *Cluster, spec *runSpec) {
 			c.byzHandler = func(s *Step) {
-				if s.Kind == "raw" {
+				switch s.Kind {
+				case "raw":
 					c.byzRawBytesStep(s)
-				} else {
+				case "sigforge":
+					c.byzSigStep(s)
+				default:
 					c.byzRPCStep(s)
 				}
 			}
@@ -488,6 +496,11 @@ func init() {
 				if c.gen.Bool(0.2) {
 					st.Kind = "raw"
 					st.N = c.gen.Intn(1000)
+				} else if c.gen.Bool(0.15) {
+					// validly signed events of the Byzantine validator carrying hostile block-signature payloads
+					st.Kind = "sigforge"
+					st.N = c.gen.Intn(len(sigForgeOps))
+					st.B = c.gen.Intn(2)
 				}
 				return st
 			}
@@ -513,4 +526,133 @@ func (c *Cluster) checkC08StillLive() {
 		}
 	}
 	_ = fmt.Sprint
+}
+
+/*******************************************************************************
+C09: adversarial block-signature payloads inside otherwise valid events of a
+Byzantine validator.
+*******************************************************************************/
+
+var sigForgeOps = []string{"other-body", "future-block", "unknown-block", "malformed", "duplicate", "stranger-style", "valid-own", "negative-index", "swapped-index"}
+
+func (c *Cluster) byzSigStep(s *Step) {
+	victim := c.nodeAt(s.A)
+	byz := c.byzNode()
+	if victim == nil || byz == nil || !victim.running() || victim.state() != _state.Babbling {
+		return
+	}
+	// the forger extends its own chain consistently (no equivocation)
+	sp, spIdx := lastOf(victim, byz)
+	max := -1
+	for i := range c.dag.byCI[byz.pubHex] {
+		if i > max {
+			max = i
+		}
+	}
+	if spIdx != max {
+		return
+	}
+	r := c.inner
+	op := sigForgeOps[s.N%len(sigForgeOps)]
+	store := victim.core().Hashgraph().Store
+	last := store.LastBlockIndex()
+	sigs := []hg.BlockSignature{}
+	mkSig := func(bodyOf, claimIndex int) (hg.BlockSignature, bool) {
+		b, err := store.GetBlock(bodyOf)
+		if err != nil {
+			return hg.BlockSignature{}, false
+		}
+		bs, err := b.Sign(byz.key)
+		if err != nil {
+			return hg.BlockSignature{}, false
+		}
+		bs.Index = claimIndex
+		return bs, true
+	}
+	switch op {
+	case "other-body":
+		if last < 1 {
+			return
+		}
+		i := r.Intn(last + 1)
+		j := (i + 1 + r.Intn(last)) % (last + 1)
+		if bs, ok := mkSig(j, i); ok {
+			sigs = append(sigs, bs)
+		}
+	case "future-block":
+		if last < 0 {
+			return
+		}
+		if bs, ok := mkSig(last, last+1+r.Intn(5)); ok {
+			sigs = append(sigs, bs)
+		}
+	case "unknown-block":
+		sigs = append(sigs, hg.BlockSignature{Validator: byz.pubB, Index: 100000 + r.Intn(1000), Signature: "1a|2b"})
+	case "negative-index":
+		sigs = append(sigs, hg.BlockSignature{Validator: byz.pubB, Index: -1 - r.Intn(3), Signature: "1a|2b"})
+	case "malformed":
+		idx := 0
+		if last >= 0 {
+			idx = r.Intn(last + 1)
+		}
+		sigs = append(sigs, hg.BlockSignature{Validator: byz.pubB, Index: idx, Signature: hostileSig(r)})
+	case "duplicate":
+		if last < 0 {
+			return
+		}
+		i := r.Intn(last + 1)
+		if bs, ok := mkSig(i, i); ok {
+			sigs = append(sigs, bs, bs, bs)
+		}
+	case "stranger-style":
+		// a correct signature by a key that is no validator; on the wire it would be attributed to the forger
+		if last < 0 {
+			return
+		}
+		i := r.Intn(last + 1)
+		b, err := store.GetBlock(i)
+		if err != nil {
+			return
+		}
+		st := deriveKey(c.seed, 250+r.Intn(20))
+		bs, _ := b.Sign(st)
+		sigs = append(sigs, bs)
+	case "valid-own":
+		if last < 0 {
+			return
+		}
+		i := r.Intn(last + 1)
+		if bs, ok := mkSig(i, i); ok {
+			sigs = append(sigs, bs)
+		}
+	case "swapped-index":
+		if last < 1 {
+			return
+		}
+		if a, ok := mkSig(last, last-1); ok {
+			if b, ok2 := mkSig(last-1, last); ok2 {
+				sigs = append(sigs, a, b)
+			}
+		}
+	}
+	if len(sigs) == 0 {
+		return
+	}
+	other := c.someEventAt(victim, r)
+	ev := newEvent(byz, spIdx+1, sp, other, nil, nil, sigs, int64(946684800+c.stepNo))
+	signEvent(ev, byz)
+	c.stats.probe("c09-hostile-signatures:" + op)
+	c.hostile = true
+	if s.B == 1 {
+		if we, ok := c.toWireFor(victim, ev); ok {
+			c.net.deliver(victim, "eager", &net.EagerSyncRequest{FromID: byz.id, Events: []hg.WireEvent{we}}, &net.EagerSyncResponse{})
+		}
+	} else {
+		cp := &hg.Event{}
+		cloneJSON(ev, cp)
+		if err := victim.core().Hashgraph().InsertEventAndRunConsensus(cp, true); err == nil {
+			victim.core().ProcessSigPool()
+		}
+	}
+	c.hostile = false
 }
